@@ -19,6 +19,7 @@ CHECKS = {
  "C13": ("proof", "the three derivation sites have the same postcondition term UUID5(UUID5(DNS, vendor), class); role lookup and kconfig duplicate rejection proved over a modelled configuration", "uuid.uuid5 uninterpreted (assumed); BuildConfiguration file reading assumed; kconfig modelled for the three configurable roles", "DESIGN.md 3 C13"),
  "C14": ("proof", "published IV == nonce used == the single os.urandom(12) draw, per call; history lemma over the ghost set of used nonces", "freshness of os.urandom is the assumption the distinctness rests on", "DESIGN.md 3 C14"),
  "C16": ("proof", "record bytes and hex-map placement proved for cache counts 0..16 and all 32-bit addresses and sizes", "struct.pack and IntelHex/bin2hex are assumed contracts; Intel-HEX record encoding is inside the IntelHex assumption", "DESIGN.md 3 C16"),
+ "C17": ("other", "P: exception-escape analysis of every from_cbor and to_obj reachable from SuitEnvelopeTagged (about 150 class instances of 17+13 functions) on ARBITRARY bytes: cbor2.loads returns an arbitrary value of the Plain sum, children by the interface contract (raises only ValueError/SUITError, payload invariant), loops over decoded containers by declared invariants - any nesting depth, any container size; validate_cbor rejects inflated top-level lengths for all inputs; B: node replacement / truncation / byte edits / length inflation (+RLIMIT_AS probe) / nesting on real envelopes", "time and memory inside cbor2's C decoder and CPython's recursion limit are not decidable by contracts (assumed / bounded probe; deep nesting is a known finding); cbor2.loads' result kinds are an assumed contract", "DESIGN.md 3 C17"),
  "C20": ("proof", "part conversion, ordering lemma (<= 6 fields, all values), sequence-number monotonicity and default-value derivation proved", "int(str)/re.match modelled on ASCII; append_default_version_values verified per half (other half's keys absent)", "DESIGN.md 3 C20"),
 }
 NOT_YET = {f"C{i:02d}": "machinery for this property is not built yet in this round (no claim made)" for i in range(1, 21)}
